@@ -32,7 +32,7 @@ def gen(tier, seed, index):
     cls = CLASSES[index % len(CLASSES)]
     typed = (index // 4) % 3 == 2
     pool = ['shared-factor', 'factor-twice-in-rule', 'ext-also-attached-twice', 'edgeless-internal', 'edgeless-ext', 'unreachable-nt',
-            'zero-weight', 'edge-twice', 'start-arity', 'jpre-shape', 'nullary', 'plain', 'unproductive-nt', 'unproductive-nt']
+            'zero-weight', 'edge-twice', 'start-arity', 'jpre-shape', 'nullary', 'plain', 'unproductive-nt', 'unproductive-nt', 'pass-through-self-rule']
     forced = [pool[(index // 4) % len(pool)]]
     spec = G.gen_spec(rng, cls, forced, allow_inf=False, typed=typed, max_nodes=4)
     return spec, dict(cls=cls, typed=typed, forced=forced)
